@@ -24,6 +24,8 @@ type c09Cfg struct {
 	useKind int     // 0 plain use of 'blk' (defines all names), 1 aliased use of 'blk2' (x as y) + block('y')
 	blockFn bool    // root's first block also prints block(<second name>)
 	nested  bool    // every child-level definition holds a nested block of its own before calling parent()
+	usedParent bool // the blocks of the plainly used template call parent() themselves (the next definition below them)
+	rootParent bool // the root holds a block rp that calls parent(); the first child overrides it, so it never runs
 	pform   int     // how parent() is written: 0 once, 1 twice, 2 inside a 2-iteration loop, 3 after a block() call of the block itself
 }
 
@@ -65,6 +67,9 @@ func c09Templates(c c09Cfg) map[string]string {
 	t := map[string]string{}
 	// root
 	var sb strings.Builder
+	if c.rootParent {
+		sb.WriteString("{% block rp %}RP{{ parent() }}{% endblock %}")
+	}
 	sb.WriteString("R<")
 	blk := func(i int, extra string) string {
 		return "{% block " + c.names[i] + " %}" + c09Body(c.names[i], 0, tn(0), false, extra, 0) + "{% endblock %}"
@@ -111,7 +116,11 @@ func c09Templates(c c09Cfg) map[string]string {
 			pn := tn(l - 1)
 			s.WriteString("{% extends '" + pn[:len(pn)/2] + "' ~ '" + pn[len(pn)/2:] + "' %}")
 		}
-		s.WriteString("ignored" + itoa(l))
+		// content of a child outside blocks - text, prints and tags that would produce output - is not rendered
+		s.WriteString("ignored" + itoa(l) + "{% if true %}IF{% endif %}{% for q in [1, 2] %}FOR{{ q }}{% endfor %}{{ 'PRINT' }}{% filter up %}flt{% endfilter %}{% if false %}{% else %}ELSE{% endif %}")
+		if c.rootParent && l == 1 {
+			s.WriteString("{% block rp %}{% endblock %}")
+		}
 		if c.useLvl == l {
 			if c.useKind == 0 {
 				s.WriteString("{% use 'blk' %}")
@@ -146,6 +155,10 @@ func c09Templates(c c09Cfg) map[string]string {
 	}
 	var ub strings.Builder
 	for _, n := range c.names {
+		if c.usedParent {
+			ub.WriteString("{% block " + n + " %}[" + n + "U:{{ name() }}^{{ parent() }}]{% endblock %}text in used template")
+			continue
+		}
 		ub.WriteString("{% block " + n + " %}[" + n + "U:{{ name() }}]{% endblock %}text in used template")
 	}
 	t["blk"] = ub.String()
@@ -188,6 +201,9 @@ func c09Expect(c c09Cfg) string {
 		n := c.names[ni]
 		d := chain[n][k]
 		if d.level == -1 {
+			if c.usedParent {
+				return "[" + n + "U:blk^" + render(ni, k+1) + "]"
+			}
 			return "[" + n + "U:blk]"
 		}
 		s := "[" + n + itoa(d.level) + c09CurI + ":" + d.tpl
@@ -264,10 +280,12 @@ func tn(l int) string {
 }
 
 func c09Run(c core.Case) core.Result {
-	c09NameStyle = c.N[5] >> 2
+	c09NameStyle = c.N[5] >> 2 & 1
+	usedParent, rootParent := c.N[5]>>3&1 == 1, c.N[5]>>4&1 == 1
 	c.N = append([]int{}, c.N...)
 	c.N[5] &= 3
 	cfg := c09Decode(c.N)
+	cfg.usedParent, cfg.rootParent = usedParent, rootParent
 	if cfg.useLvl >= cfg.L || (cfg.useLvl > 0 && cfg.useKind >= 1) && func() bool {
 		for i := range cfg.names {
 			if cfg.opt[cfg.useLvl][i] != 0 {
@@ -281,6 +299,7 @@ func c09Run(c core.Case) core.Result {
 	tpls := c09Templates(cfg)
 	want := c09Expect(cfg)
 	env := stick.New(&stick.MemoryLoader{Templates: tpls})
+	addStdCallbacks(env)
 	env.Functions["name"] = func(ctx stick.Context, args ...stick.Value) stick.Value { return ctx.Name() }
 	ctx := map[string]stick.Value{}
 	for l := 1; l < cfg.L; l++ {
@@ -339,6 +358,7 @@ func c09Run(c core.Case) core.Result {
 		for _, n := range names {
 			o1, e1, p1 := tryExec(env, n, ctx)
 			fenv := stick.New(&stick.MemoryLoader{Templates: fresh})
+			addStdCallbacks(fenv)
 			fenv.Functions["name"] = env.Functions["name"]
 			o2, e2, p2 := tryExec(fenv, n, ctx)
 			if p1 != "" || p2 != "" {
@@ -392,6 +412,15 @@ func c09Gen(maxL, nNames, pforms int, emit func(core.Case)) {
 										continue
 									}
 									emit(core.Case{Fam: "cfg", N: append([]int{L, nNames, layout, pref, useLvl, uk, bf | pf<<2}, opts...)})
+									if L >= 2 && pf == 0 && bf == 0 && (L <= 3 || (layout == 0 && pref == 0)) {
+										// the blocks of the used template call parent(); the root holds a never-run parent() call
+										if uk == 0 && useLvl > 0 {
+											emit(core.Case{Fam: "cfg", N: append([]int{L, nNames, layout, pref, useLvl, uk | 1<<3, bf | pf<<2}, opts...)})
+										}
+										if pref == 0 {
+											emit(core.Case{Fam: "cfg", N: append([]int{L, nNames, layout, pref, useLvl, uk | 1<<4, bf | pf<<2}, opts...)})
+										}
+									}
 									if L <= 3 && pf == 0 && bf == 0 && layout == 0 {
 										// the same with template names that carry blanks
 										emit(core.Case{Fam: "cfg", N: append([]int{L, nNames, layout, pref, useLvl, uk | 1<<2, bf | pf<<2}, opts...)})
@@ -425,7 +454,7 @@ func init() {
 		Category: "exploration",
 		Rule: "bounded-exhaustive inheritance configurations: chain length 1..4, 2 block names (3 up to length 3; thorough: 3 names to length 4, 4 names to length 2), each (level, name) absent / overriding / overriding and calling parent(), root defining all; root layout flat / second block nested in the first / first block inside a 2-iteration loop; parent named by literal, variable or concatenation; a use tag at any extending level, plain (block set ranking between own and ancestors' blocks), aliased with block('y'), or with three aliases in one tag; template names plain or carrying blanks; block(name) in the root; optionally a nested block of its own inside every child-level definition, before its parent() call; parent() written once, twice, inside a 2-iteration loop or directly after a block() call of another block; text outside blocks in every child; every block prints Context.Name(); after the render, the same template and (after an aliased use) two probes importing the used template plainly / under another alias are rendered on the same environment and must give what a fresh environment gives. " +
 			"Reference: textbook resolution (most-derived definition; parent() = next definition in the order child, used, ancestors; name() = defining template). distinct = distinct configuration; non-trivial = chain length > 1",
-		Assumptions: []string{"a non-extending template with use is not claimed", "used templates define plain blocks (no parent() inside used blocks)"},
+		Assumptions: []string{"a non-extending template with use is not claimed", "blocks of a used template call parent() only in the plain (unaliased) use"},
 		Levels:      c09Levels,
 		Run:         c09Run,
 		NoDedup:     true,
